@@ -60,6 +60,29 @@ static void h_sem(int argc, char **argv)
     mc_outcome("ok");
 }
 
+/* semcreate: two participants create (CREATE mode) a name that already exists, at the same time: CREATE succeeds whether or not the name exists,
+ * also when the other one removes and re-creates it in between (which counter each of them ends up with is not judged) */
+static void *semcreate_one(void *arg)
+{
+    PError *e = NULL; PSemaphore *s = p_semaphore_new(NAME, 1, P_SEM_ACCESS_CREATE, &e); (void)arg;
+    if (!s) mc_fail("C06", "sched/create-race-failed", "p_semaphore_new in CREATE mode returned NULL (native code %d) while another participant created the same existing name", e ? p_error_get_native_code(e) : 0);
+    p_semaphore_free(s);
+    return NULL;
+}
+static void h_semcreate(int argc, char **argv)
+{
+    PSemaphore *first; int a, b; (void)argc; (void)argv;
+    mkname();
+    first = p_semaphore_new(NAME, 1, P_SEM_ACCESS_CREATE, NULL);
+    if (!first) mc_fail("C06", "sched/new-failed", "p_semaphore_new failed on a fresh name");
+    a = mc_thread_create(semcreate_one, NULL); b = mc_thread_create(semcreate_one, NULL);
+    mc_thread_join(a); mc_thread_join(b);
+    p_semaphore_take_ownership(first); p_semaphore_free(first);
+    { PSemaphore *c = p_semaphore_new(NAME, 1, P_SEM_ACCESS_CREATE, NULL); if (c) { p_semaphore_take_ownership(c); p_semaphore_free(c); } }      /* whoever holds the name now: remove it */
+    mc_nontrivial(0);
+    mc_outcome("ok");
+}
+
 /* semrace: an OPEN-mode open races with the owner's free of the same name.  Whatever the order, a handle that is returned
  * must see either the existing counter (1 unit) or a fresh one with the requested value (2 units): at least one acquire succeeds */
 static void *semrace_opener(void *arg)
@@ -217,6 +240,6 @@ static void h_shmbuf(int argc, char **argv)
 }
 
 static const McHarness HS[] = {
-    {"sem", h_sem, "<threads> <init>"}, {"semrace", h_semrace, ""}, {"shmcreate", h_shmcreate, "<participants>"}, {"shmlock", h_shmlock, "<participants>"}, {"shmrace", h_shmrace, ""}, {"shmbuf", h_shmbuf, "<script>..."},
+    {"sem", h_sem, "<threads> <init>"}, {"semrace", h_semrace, ""}, {"semcreate", h_semcreate, ""}, {"shmcreate", h_shmcreate, "<participants>"}, {"shmlock", h_shmlock, "<participants>"}, {"shmrace", h_shmrace, ""}, {"shmbuf", h_shmbuf, "<script>..."},
 };
-int main(int argc, char **argv) { return mc_main(argc, argv, HS, 6); }
+int main(int argc, char **argv) { return mc_main(argc, argv, HS, (int)(sizeof HS / sizeof HS[0])); }
